@@ -94,7 +94,7 @@ def run_shard(spec, rng, ctx):
     end = C.budget(spec)
     i = 0
     try:
-        while i < spec["max_cases"] and time.time() < end:
+        while i < spec["max_cases"] and C.now() < end:
             alg = C.PACKERS[i % 5] if i % 3 else "bc"      # bin-completion gets half of the cases (its defects need search)
             cls = None
             if alg == "bc":
